@@ -12,6 +12,7 @@ package main
 
 import (
 	"fmt"
+	"go/constant"
 	"go/token"
 	"go/types"
 	"sort"
@@ -174,4 +175,122 @@ func boxedStringers(p *Prog, v ssa.Value, depth int) []*ssa.Function {
 		}
 	}
 	return out
+}
+
+// ---- TBLNAME: every row of a name table is the name its value formats to ----------------------------------
+//
+// Where a String method of an integer type looks its receiver up directly in a package-level table of names
+// (an array or slice of strings indexed by the value, or a map keyed by it), every non-empty row k: "Name" of that
+// table is a documented name: folding String(k) must give exactly that name. A row that the stringer never
+// returns — cut off by a guard that is one too tight, shadowed by an earlier case — is a documented value that
+// formats as the fallback.
+func ruleTblName(p *Prog, r *Report, fd *folder, ms []*ssa.Function) {
+	tb := p.Tables()
+	for _, f := range ms {
+		named := recvNamed(f)
+		if named == nil || !isIntType(named.Underlying()) || f.Signature.Recv() == nil || f.Name() != "String" || len(f.Params) != 1 {
+			continue
+		}
+		if _, isPtr := f.Signature.Recv().Type().(*types.Pointer); isPtr {
+			continue
+		}
+		recv := ssa.Value(f.Params[0])
+		isRecv := func(v ssa.Value) bool {
+			for i := 0; i < 4; i++ {
+				if v == recv {
+					return true
+				}
+				switch x := v.(type) {
+				case *ssa.Convert:
+					v = x.X
+				case *ssa.ChangeType:
+					v = x.X
+				default:
+					return false
+				}
+			}
+			return false
+		}
+		tablesUsed := map[*ssa.Global]bool{}
+		eachInstr(f, func(_ *ssa.BasicBlock, _ int, in ssa.Instruction) {
+			switch x := in.(type) {
+			case *ssa.IndexAddr:
+				if g := globalOf(x.X); g != nil && isRecv(x.Index) {
+					tablesUsed[g] = true
+				}
+			case *ssa.Index:
+				if g := loadOfGlobal(x.X); g != nil && isRecv(x.Index) {
+					tablesUsed[g] = true
+				}
+			case *ssa.Lookup:
+				if g := loadOfGlobal(x.X); g != nil && isRecv(x.Index) {
+					tablesUsed[g] = true
+				}
+			}
+		})
+		var gs []*ssa.Global
+		for g := range tablesUsed {
+			gs = append(gs, g)
+		}
+		sort.Slice(gs, func(i, j int) bool { return globalName(gs[i]) < globalName(gs[j]) })
+		for _, g := range gs {
+			tv := tb.Val(g)
+			if tv == nil {
+				continue
+			}
+			type row struct {
+				k    int64
+				name string
+			}
+			var rows []row
+			switch tv.Kind {
+			case "strings":
+				for i, s := range tv.Strs {
+					if s != "" {
+						rows = append(rows, row{int64(i), s})
+					}
+				}
+			case "map":
+				for i, k := range tv.MapKeys {
+					if k == nil || k.Kind() != constant.Int || i >= len(tv.MapVals) || tv.MapVals[i] == nil || tv.MapVals[i].Kind() != constant.String {
+						continue
+					}
+					kk, ok := constant.Int64Val(k)
+					if !ok {
+						continue
+					}
+					if s := constant.StringVal(tv.MapVals[i]); s != "" {
+						rows = append(rows, row{kk, s})
+					}
+				}
+			default:
+				continue
+			}
+			if len(rows) == 0 {
+				continue
+			}
+			key := fmt.Sprintf("%s | rows of %s", fnName(f), globalName(g))
+			at := p.posStr(f.Pos())
+			bad, und := "", ""
+			for _, rw := range rows {
+				res := fd.fold(f, []cval{{kind: "int", i: rw.k}})
+				switch {
+				case res.panics != "":
+					bad += fmt.Sprintf("String(%d) panics (%s); ", rw.k, res.panics)
+				case res.undecided != "":
+					und = res.undecided
+				case res.val.s != rw.name:
+					bad += fmt.Sprintf("row %d: %q is never returned — String(%d) is %q; ", rw.k, rw.name, rw.k, res.val.s)
+				}
+			}
+			switch {
+			case bad != "":
+				r.Bad("TBLNAME", key, at, "the table documents names the stringer does not produce: "+bad)
+			case und != "":
+				r.OK("TBLNAME", key, at, "stringer not foldable ("+und+"): rows not compared")
+			default:
+				r.OK("TBLNAME", key, at, fmt.Sprintf("%d rows, each is what String returns for its value", len(rows)))
+			}
+		}
+	}
 }
